@@ -280,9 +280,9 @@ func TestVerifCrash(t *testing.T) {
 			if soak {
 				killAfter = 1
 			}
-			if soak && c%4 == 2 {
-				// an extra incarnation that dies the instant its Open returns (second kill before the background flush of what
-				// the first kill left behind can finish)
+			openKill := func() {
+				// an extra incarnation that dies the instant its Open returns: a second kill before the background flush of
+				// what the first kill left behind can finish
 				ok := c16start(t, append(base, "VERIF_CRASH_MODE=openkill"))
 				okT := time.After(40 * time.Second)
 			okloop:
@@ -297,6 +297,9 @@ func TestVerifCrash(t *testing.T) {
 					}
 				}
 				ok.cmd.Wait()
+			}
+			if soak && c%4 == 2 {
+				openKill()
 			}
 			if soak && c%2 == 1 {
 				base = append(base, "VERIF_CRASH_DUP=1", "VERIF_CRASH_SELFKILL=1")
@@ -394,6 +397,11 @@ func TestVerifCrash(t *testing.T) {
 			}
 			if soak && c%8 != 0 && c != cycles {
 				continue // soak directory: read back only now and then
+			}
+			if !soak && c%2 == 0 {
+				// main directories: the write-ahead file the killed store child left behind holds up to a thousand acknowledged
+				// entries; the flush of that much outlasts Open, so this second kill lands inside it. Read back right after.
+				openKill()
 			}
 			// ---- verify child: reopen, read everything back
 			clean := r.Intn(2) == 0 && !soak
